@@ -423,7 +423,7 @@ class StmtMixin:
 
     def exec_Try(self, s, st):
         if s.finalbody:
-            raise Unsupported("try/finally")
+            return self.exec_try_finally(s, st)
         self.sinks.append([])
         try:
             outs = self.exec_block(s.body, st)
@@ -451,6 +451,37 @@ class StmtMixin:
                     break
             if not handled:
                 self.sinks[-1].append(oc)
+        return result
+
+    def exec_try_finally(self, s, st):
+        """try/.../finally: the finally block runs after every way out of the protected part (fall-through, return,
+        break/continue, escaping exception); unless it leaves by itself the original way out is resumed."""
+        self.sinks.append([])
+        try:
+            if s.handlers or s.orelse:
+                inner = ast.Try(body=s.body, handlers=s.handlers, orelse=s.orelse, finalbody=[])
+                ast.copy_location(inner, s)
+                outs = self.exec_Try(inner, st)
+            else:
+                outs = self.exec_block(s.body, st)
+        finally:
+            raised = self.sinks.pop()
+        result = []
+        for oc in outs:
+            for f in self.exec_block(s.finalbody, oc.st):
+                if f.kind == "next":
+                    result.append(Outcome(oc.kind, f.st, oc.value, site=oc.site, line=oc.line))
+                else:
+                    result.append(f)
+        for oc in raised:
+            hst = oc.st
+            hst.guards = []
+            hst.trace.append(f"L{s.finalbody[0].lineno}:finally after {oc.value}")
+            for f in self.exec_block(s.finalbody, hst):
+                if f.kind == "next":
+                    self.sinks[-1].append(Outcome("raise", f.st, oc.value, site=oc.site, line=oc.line))
+                else:
+                    result.append(f)
         return result
 
     def handler_names(self, h):
